@@ -971,6 +971,83 @@ fn run_generator_reuse(cx: &mut CaseCx, case: &Value) {
   cx.outcome(format!("generator reuse t={}", t));
 }
 
+/// Replayed reports inside a batch with SURPLUS reports: a bucket holds >= t distinct reports, but among its
+/// first t entries some report occurs twice (delivered twice, adjacent or apart, or every early report doubled).
+/// A key recovery that looks only at the first t entries of the bucket sees fewer than t distinct shares.
+fn run_repeats_with_surplus(cx: &mut CaseCx, case: &Value) {
+  use star_test_utils::AggregationServer;
+  let t = case["t"].as_u64().unwrap() as usize;
+  let epoch = "epoch";
+  let meas = b"measurement reported with replays".to_vec();
+  let rnd = local_randomness(&meas, epoch.as_bytes(), t as u32);
+  let n = t + 3;
+  let mut reps: Vec<(Message, Option<Vec<u8>>)> = vec![];
+  for k in 0..n {
+    getrandom::verif::set_group(k as u32 + 1);
+    let aux = if k % 3 == 2 { None } else { Some(format!("client {}", k).into_bytes()) };
+    match gen_report(&meas, epoch.as_bytes(), t as u32, &rnd, &aux) {
+      Ok(m) => reps.push((m, aux)),
+      Err(e) => {
+        cx.viol("C01/generate-failed", e, json!({"t": t}));
+        return;
+      }
+    }
+  }
+  // index sequences over the n distinct reports: every one contains >= t distinct reports
+  let mut seqs: Vec<(String, Vec<usize>)> = vec![];
+  for d in t..=n {
+    let base: Vec<usize> = (0..d).collect();
+    seqs.push((format!("{} distinct, the first delivered twice in a row", d), [vec![0], base.clone()].concat()));
+    seqs.push((format!("{} distinct, the first delivered three times up front", d), [vec![0, 0], base.clone()].concat()));
+    seqs.push((format!("{} distinct, every report delivered twice in a row", d), base.iter().flat_map(|&i| [i, i]).collect()));
+    seqs.push((format!("{} distinct, the whole batch delivered twice", d), [base.clone(), base.clone()].concat()));
+    seqs.push((format!("{} distinct, the second delivered again in third place", d), { let mut v = base.clone(); v.insert(2.min(v.len()), 1.min(d - 1)); v }));
+    seqs.push((format!("{} distinct, the last delivered first as well", d), [vec![d - 1], base.clone()].concat()));
+    seqs.push((format!("{} distinct, replays only at the end", d), [base.clone(), vec![0, 0, 1.min(d - 1)]].concat()));
+  }
+  let agg = AggregationServer::new(t as u32, epoch);
+  for (how, seq) in &seqs {
+    for rev in [false, true] {
+      let mut order = seq.clone();
+      if rev {
+        order.reverse();
+      }
+      let batch: Vec<Message> = order.iter().map(|&i| reps[i].0.clone()).collect();
+      cx.eval();
+      cx.count("states", 1);
+      cx.count("transitions", 1);
+      cx.nontrivial(fnv_str(&format!("{}|{}|{}", t, how, rev)));
+      let d = || json!({"t": t, "delivery": how, "reversed": rev, "order": order});
+      let out = match guard(|| agg.retrieve_outputs(&batch)) {
+        Ok(o) => o,
+        Err(p) => {
+          cx.viol("C01/replays-with-surplus/server-panicked", p.chars().take(200).collect::<String>(), d());
+          return;
+        }
+      };
+      let found: Vec<_> = out.iter().filter(|o| o.x.as_vec() == meas).collect();
+      if found.len() != 1 || out.len() != 1 {
+        cx.viol("C01/replays-with-surplus/not-revealed", format!("threshold {}: a batch with >= t distinct reports of one measurement ({}) reveals it {} times ({} outputs): replayed reports among the first entries of the bucket must not count against the distinct ones behind them", t, how, found.len(), out.len()), d());
+        return;
+      }
+      let mut want: Vec<Option<Vec<u8>>> = order.iter().map(|&i| reps[i].1.clone()).collect();
+      want.sort();
+      let mut got: Vec<Option<Vec<u8>>> = found[0].aux.iter().map(|a| a.as_ref().map(|x| x.as_vec()).filter(|v| !v.is_empty())).collect();
+      got.sort();
+      let mut wd = want.clone();
+      wd.dedup();
+      let mut gd = got.clone();
+      gd.dedup();
+      if gd != wd {
+        cx.viol("C01/replays-with-surplus/associated-data-wrong", format!("threshold {} ({}): the revealed measurement carries other associated data than its clients attached", t, how), d());
+        return;
+      }
+      cx.count("replay_batches_revealed", 1);
+    }
+  }
+  cx.outcome(format!("replays with surplus t={}", t));
+}
+
 /// boundary search on the tag: measurements whose tag has a 0x00 / 0xff first or last byte, aggregated by the
 /// reference aggregation server (the "aggregation side" of the repository) - they must be revealed like any other
 fn run_boundary_tags(cx: &mut CaseCx, case: &Value) {
@@ -1246,6 +1323,13 @@ pub fn spec() -> PropSpec {
         gen: |_| [1u64, 2, 3, 5].iter().map(|t| json!({"t": t})).collect(),
         run: run_generator_reuse,
         min_counts: &[("reuse_groups_revealed", 24)],
+      },
+      Check {
+        name: "replays-with-surplus",
+        rule: "the reference aggregation side, t in {2,3,5}: t+3 distinct reports of one measurement; for d = t..t+3 distinct reports 7 delivery sequences with REPLAYS placed among the first entries of the bucket (first report twice / three times up front, every report twice in a row, whole batch twice, second again in third place, last also first) and, as control, replays only at the end; forwards and reversed: the measurement is revealed exactly once with its clients' associated data",
+        gen: |_| [2u64, 3, 5].iter().map(|t| json!({"t": t})).collect(),
+        run: run_repeats_with_surplus,
+        min_counts: &[("replay_batches_revealed", 150)],
       },
       Check {
         name: "boundary-tags",
